@@ -193,6 +193,9 @@ def run(ctx):
                 with fl.settings.context(decimals=d):
                     spec = E.gen_engine(rnd, activations=tuple(c08.METHODS), d=d, descriptions=True, infinite=True, max_rules=4)
                     spec["description"] = rnd.choice(["", "an engine: demo", "tab\tinside"])
+                    if rnd.random() < 0.5:
+                        spec = E.exotic(rnd, spec)
+                        ctx.hit("workload:exotic configuration")
                     for variant in ("grid", "off-grid"):
                         sp = spec if variant == "grid" else off_grid(rnd, spec)
                         try:
@@ -244,7 +247,7 @@ def same_outputs(ctx, fl, rnd, spec, engine, text):
         back = fl.FllImporter().from_string(text)
     except Exception:
         return
-    general = all(rb["activation"]["cls"] == "General" for rb in spec["blocks"])
+    general = all(rb["activation"] and rb["activation"]["cls"] == "General" for rb in spec["blocks"])
     rows = E.rows(rnd, spec, 6)
     blocks = [[r] for r in rows[:4]] + ([rows[4:]] if general else [[r] for r in rows[4:]])
     fresh = E.build(fl, spec)
